@@ -23,6 +23,7 @@ import json
 import os
 
 from harness.common.framework import Prop, VERIF
+from translate import t_c15
 
 ERRS = ('StopIteration', 'ValueError', 'TypeError', 'AssertionError', 'KeyError')
 
@@ -41,6 +42,11 @@ class World:
     self.spec = pg.dna_spec(pg.Dict(**{'d%d' % i: pg.oneof(list(range(n))) for i, n in enumerate(dims)}))
     self.dnas = list(self.spec.iter_dna())
     self.index = {tuple(d.to_numbers()): i for i, d in enumerate(self.dnas)}
+    # default hash (pg.hash of a metadata-free DNA) -> index: symbolic hashes never cross the protocol
+    self.keymap = {pg.hash(d): 1000000 + i for i, d in enumerate(self.dnas)}
+
+  def key(self, k):
+    return self.keymap.get(k, k)
 
   def idx(self, dna):
     return self.index[tuple(dna.to_numbers())]
@@ -237,7 +243,7 @@ def item_obs(world, dna):
   return {'dna': world.idx(dna), 'reward': jreward(m.get('reward')), 'pid': m.get('proposal_id'),
           'gid': m.get('generation_id'), 'initial': m.get('initial_population'),
           'fbseq': m.get('feedback_sequence_number'),
-          'key': (m.get('dedup_key') if not isinstance(m.get('dedup_key'), int) or abs(m.get('dedup_key')) < 10**6 else 'h')}
+          'key': world.key(m.get('dedup_key'))}
 
 
 def observe(world, cfg, algo):
@@ -245,15 +251,8 @@ def observe(world, cfg, algo):
   o = {'np': algo.num_proposals, 'nf': algo.num_feedbacks}
   if k == 'dedup' or (k == 'real' and cfg['name'] == 'dedup'):
     cache = algo._cache      # no public accessor for the de-duplication memory   # pylint: disable=protected-access
-    default_hash = (k == 'dedup' and cfg['hash'] == 0)
-    ents = []
-    for key, rewards in cache.items():
-      ents.append([key, [jreward(r) for r in rewards]])
-    if default_hash:
-      # symbolic hashes are opaque numbers: canonicalise by renaming keys in order of first insertion
-      ents = [[i, rs] for i, (_, rs) in enumerate(ents)]
-    else:
-      ents.sort(key=lambda e: e[0])
+    ents = [[world.key(key), [jreward(r) for r in rewards]] for key, rewards in cache.items()]
+    ents.sort(key=lambda e: e[0])         # a dict: order is not part of the observation
     o['cache'] = ents
     o['feedback_driven'] = bool(algo.needs_feedback)
     o['inner'] = observe(world, cfg['inner'], algo.generator)
@@ -294,11 +293,14 @@ def crash_points(world, cfg, events, m):
     live, hist, lg = run_live(world, cfg, events[:k])
     if k == len(events):
       log = lg
-    rec, err = recover_fresh(world, cfg, hist)
+    import random
+    g_live = random.getstate()      # the global PRNG is shared by all unseeded Random instances:
+    rec, err = recover_fresh(world, cfg, hist)     # (setup reseeds it: position 0 for the fresh instance)
     ent = {'live': observe(world, cfg, live)}
     ent['rec'] = {'error': err} if err else observe(world, cfg, rec)
-    ent['live_next'] = next_proposals(world, live, m)
     ent['rec_next'] = [] if err else next_proposals(world, rec, m)
+    random.setstate(g_live)         # the live instance continues where *it* had left the stream
+    ent['live_next'] = next_proposals(world, live, m)
     ent['hist'] = [[world.idx(d), jreward(r)] for d, r in hist]
     out.append(ent)
   return out, log
@@ -328,6 +330,26 @@ def streams(world, cfg, n):
 # ------------------------------------------------------------------------------------------
 # The property
 # ------------------------------------------------------------------------------------------
+
+def has_real(cfg):
+  k = cfg['kind']
+  if k == 'real':
+    return True
+  if k == 'dedup':
+    return has_real(cfg['inner'])
+  if k == 'evo':
+    return has_real(cfg['init'])
+  return False
+
+
+def attempts_bound(cfg):
+  k = cfg['kind']
+  if k == 'dedup':
+    return cfg['max_att'] * attempts_bound(cfg['inner'])
+  if k == 'evo':
+    return attempts_bound(cfg['init'])
+  return 1
+
 
 def continuation_claimed(cfg):
   """Algorithms whose proposals are a function of history and seed: sweeping, seeded random,
@@ -404,10 +426,6 @@ def diff_state(cfg, live, rec, path=''):
         # (only when no duplicate was dropped: otherwise the history cannot tell the count)
         yield ('%s:inner-counts' % name, 'wrapped algorithm proposals/feedbacks live=%s/%s recovered=%s/%s'
                % (li['np'], li['nf'], ri['np'], ri['nf']))
-    elif icfg['kind'] == 'dedup':
-      l2, r2 = dict(live['inner']), dict(rec['inner'])
-      l2['hist_dnas'] = r2['hist_dnas'] = live['hist_dnas']
-      yield from diff_state(icfg, l2, r2, path + '/inner')
   if 'pop' in live:
     lp, rp = pop_view(live['pop']), pop_view(rec['pop'])
     if lp != rp:
@@ -441,13 +459,30 @@ class C15(Prop):
   id = 'C15'
   props_modules = ['PgProps.C15']
   driver = 'drv_c15'
-  translators = []
+  translators = [t_c15.run]
   case_timeout_s = 60
   jobs_quick = 4
   jobs_thorough = 6
-  rule = ''
-  trusted_base = []
-  assumptions = []
+  rule = ('algorithm configuration drawn from {Sweeping, Random(seed), Random(), Deduping over them (default '
+          'hash / index mod k, max_duplicates 1-3, max attempts 1-6, auto reward on/off), nested Deduping (one '
+          'hash function), Evolution with a deterministic reproduction (1-3 children per generation) and '
+          'population update (none / last n / top n) over a Sweeping / Random / Deduping initialiser with or '
+          'without initial size, Deduping over Evolution, and the real regularized_evolution / hill_climb / '
+          'nsga2 (+ Deduping over them; oracle only)}; spaces of 3-24 points; runs of 0-40 (thorough: 80) events '
+          'produced like a tuning backend with 1-5 parallel workers (feedback in proposal order or shuffled, '
+          'last proposals in flight); EVERY crash point k in 0..N is checked inside a case. Non-trivial: some '
+          'crash point has a proposal in flight and some has a reward; distinct by (algo, space, events).')
+  trusted_base = [
+      'random.Random bit streams (the oracle stream fed to the model is recorded from the real PRNG)',
+      'reproduction / population-update operations of Evolution are parameters of the model (tied only for '
+      'the deterministic operations of the harness; real operators run oracle-only)',
+      'pg.to_json_str / pg.from_json_str of the history (C05); DNA identity = index in spec.iter_dna() (C11)',
+      'Deduping._cache is read directly (no public accessor for the de-duplication memory)',
+      'modelled, not verified: the generator state machines of PgModel/Gen.lean (tied by correspondence at '
+      'every crash point + translate/t_c15.py for the structural variant of recover/_replay)',
+  ]
+  assumptions = ['the client feeds a proposal back at most once, with the DNA object it was handed',
+                 'operations passed to Evolution are pure functions of (population, num_generations, step)']
 
 
   # -- generation ---------------------------------------------------------------------------
@@ -464,7 +499,7 @@ class C15(Prop):
     if init['kind'] == 'sweeping' and rng.chance(0.4):
       init_size = None                     # initial phase ends when the initialiser is exhausted
     else:
-      init_size = rng.randint(0, 5)
+      init_size = rng.randint(1, 5)
     upd = rng.weighted([(2, ['none']), (3, ['last', rng.randint(1, 4)]), (3, ['top', rng.randint(1, 4)])])
     repro = [rng.choice(['best_next', 'last_gen']), rng.weighted([(3, 1), (2, 2), (1, 3)])]
     return {'kind': 'evo', 'init': init, 'init_size': init_size, 'repro': repro, 'update': upd}
@@ -483,7 +518,12 @@ class C15(Prop):
     if k == 'dedup-base':
       return self.gen_dedup(rng, self.gen_base(rng), size)
     if k == 'dedup-dedup':
-      return self.gen_dedup(rng, self.gen_dedup(rng, self.gen_base(rng), size), size)
+      # nested wrappers share the metadata key 'dedup_key': only meaningful with one hash function
+      inner = self.gen_dedup(rng, self.gen_base(rng), size)
+      inner['hash'] = max(1, inner['hash'])
+      outer = self.gen_dedup(rng, inner, size)
+      outer['hash'] = inner['hash']
+      return outer
     if k == 'evo':
       return self.gen_evo(rng, size)
     if k == 'dedup-evo':
@@ -535,31 +575,45 @@ class C15(Prop):
         size *= d
       algo = self.gen_algo(rng, size)
       hi = 40 if tier == 'quick' else rng.choice([40, 40, 80])
-      n = rng.weighted([(1, rng.randint(0, 5)), (5, rng.randint(6, 20)), (3, rng.randint(21, hi))])
+      n = rng.weighted([(1, rng.randint(0, 5)), (6, rng.randint(6, 16)), (2, rng.randint(17, hi))])
       yield {'algo': algo, 'dims': dims, 'events': self.gen_events(rng, n), 'm': 3}
 
   def model_request(self, case):
-    return None
+    cfg = case['algo']
+    if has_real(cfg):
+      return None            # real reproduction operators: oracle only
+    world = World(case['dims'])
+    m = case.get('m', 3)
+    n = sum(1 for e in case['events'] if e[0] == 'p') + m
+    n = min(4000, n * attempts_bound(cfg) + 4)
+    return {'algo': cfg, 'space': list(range(len(world.dnas))), 'streams': streams(world, cfg, n),
+            'events': case['events'], 'm': m}
 
   def impl(self, case):
     world = World(case['dims'])
     cfg = case['algo']
     ks, log = crash_points(world, cfg, case['events'], case.get('m', 3))
-    n_prop = sum(1 for e in case['events'] if e[0] == 'p') + case.get('m', 3)
-    return {'ks': ks, 'log': log, 'n': len(world.dnas)}
+    return {'model': {'ks': ks}, 'log': log, 'n': len(world.dnas)}
 
   def oracle(self, case, out):
     cfg = case['algo']
     fails = []
-    for k, ent in enumerate(out['ks']):
+    log = out['log']
+    for k, ent in enumerate(out['model']['ks']):
       live, rec = dict(ent['live']), dict(ent['rec'])
       live['hist_dnas'] = [h[0] for h in ent['hist']]
+      failed_propose = any(isinstance(x, str) and x in ERRS for x in log[:k])
+      suffix = ':after-failed-propose' if failed_propose else ''
       for sig, text in diff_state(cfg, live, rec):
-        fails.append({'signature': sig, 'what': 'crash point k=%d: %s' % (k, text), 'k': k})
-      if 'error' not in rec and continuation_claimed(cfg):
+        fails.append({'signature': sig + suffix, 'what': 'crash point k=%d: %s' % (k, text), 'k': k})
+      # Continuation: claimed for sweeping / seeded random / de-duplication over them, after a run of
+      # proposals and feedbacks (a `propose` that raised is not a proposal: such prefixes are skipped).
+      if 'error' not in rec and continuation_claimed(cfg) and not failed_propose:
         a, b = next_view(ent['live_next']), next_view(ent['rec_next'])
         if a != b:
-          fails.append({'signature': '%s:continuation' % kind_name(cfg),
+          rejected = innermost(live)['np'] > live['np']
+          fails.append({'signature': '%s:continuation%s' % (
+                            kind_name(cfg), ':after-rejected-duplicate' if rejected else ''),
                         'what': 'crash point k=%d: next proposals live=%s recovered=%s' % (k, a, b), 'k': k})
     if not fails:
       return None
@@ -568,6 +622,65 @@ class C15(Prop):
       if f['signature'] not in known:
         return f
     return fails[0]
+
+  def nontrivial(self, case, out):
+    """At least one crash point with a proposal still in flight and at least one with a reward."""
+    ks = out['model']['ks']
+    return (any(any(h[1] is None for h in e['hist']) for e in ks)
+            and any(any(h[1] is not None for h in e['hist']) for e in ks))
+
+  def describe(self, case, out):
+    cfg = case['algo']
+    h = ['algo:' + kind_name(cfg)]
+    ev = case['events']
+    h.append('events:%s' % ('0-5' if len(ev) <= 5 else '6-16' if len(ev) <= 16 else '17-40' if len(ev) <= 40 else '41+'))
+    fed = [e[1] for e in ev if e[0] == 'f']
+    h.append('feedback:' + ('none' if not fed else 'in-order' if fed == sorted(fed) else 'out-of-order'))
+    log = out['log']
+    for x in sorted({x for x in log if isinstance(x, str) and x in ERRS}):
+      h.append('propose-raises:' + x)
+    last = out['model']['ks'][-1]
+    if any(x[1] is None for x in last['hist']):
+      h.append('in-flight-at-end')
+    if 'cache' in last['live'] and innermost(last['live'])['np'] > last['live']['np']:
+      h.append('duplicates-rejected')
+    if any(isinstance(x, dict) and x.get('auto') is not None for e in out['model']['ks'] for x in e['live_next']) \
+        or any(c15_auto(cfg) for _ in [0]) and any(e['live'].get('feedback_driven') for e in out['model']['ks'][:1]):
+      h.append('auto-reward-enabled')
+    if cfg['kind'] == 'evo':
+      h.append('evo-init:' + kind_name(cfg['init']) + ('/sized' if cfg['init_size'] is not None else '/exhaust'))
+      h.append('evo-children:%d' % cfg['repro'][1])
+      h.append('evo-phase-at-end:' + ('evolving' if last['live']['gen'] > 0 else 'initialising'))
+    if not self.nontrivial(case, out):
+      h.append('trivial')
+    return h
+
+  def shrink_candidates(self, case):
+    ev = case['events']
+    # shorter prefixes first (the failing crash point is usually early), then single-event removal
+    for n in range(0, len(ev)):
+      c = dict(case)
+      c['events'] = ev[:n]
+      yield c
+    for i in range(len(ev)):
+      c = dict(case)
+      c['events'] = ev[:i] + ev[i + 1:]
+      yield c
+    cfg = case['algo']
+    if cfg['kind'] == 'dedup' and cfg['inner']['kind'] == 'dedup':
+      c = dict(case)
+      c['algo'] = cfg['inner']
+      yield c
+
+
+def c15_auto(cfg):
+  return cfg['kind'] == 'dedup' and cfg.get('auto', False)
+
+
+def innermost(obs):
+  while 'inner' in obs and 'cache' in obs['inner']:
+    obs = obs['inner']
+  return obs['inner'] if 'inner' in obs else obs
 
 
 PROP = C15()
